@@ -42,7 +42,7 @@ JPowSmall(e) == FirstBad(Len(e.p), LAMBDA k : e.r[k] = Fold(e.a, e.p[k]))
 JTimesDef(e) == FirstBad(Len(e.b), LAMBDA k : e.r[k] = GF16!Mul(e.a, e.b[k]))
 
 JPTimes(e) == IF ToSet(e.r) = P!TimesMod(ToSet(e.p), ToSet(e.q), 64) THEN 0 ELSE 1
-JPDiv(e)   == IF P!IsDivMod(ToSet(e.p), ToSet(e.d), ToSet(e.q), ToSet(e.r)) THEN 0 ELSE 1
+JPDiv(e)   == IF ~e.timeout /\ P!IsDivMod(ToSet(e.p), ToSet(e.d), ToSet(e.q), ToSet(e.r)) THEN 0 ELSE 1
 
 \* closure sweeps run in Go only nominate; they must report their own mismatches as events
 JSweep(e) == IF e.nominated = e.mismatches \/ e.nominated = e.cap THEN 0 ELSE 1
